@@ -31,11 +31,11 @@ type C13Case struct {
 }
 
 // strings used in several roles across configurations
-var c13Strings = []string{"abc", "a+", "select", "x", "ab", "/p/{id}", "[a-c]+", "4\\d\\d", "admin", "\\d{3}"}
+var c13Strings = []string{"abc", "a+", "select", "x", "ab", "/p/{id}", "[a-c]+", "4\\d\\d", "admin", "\\d{3}", "Abc", "^X-Tok", "^[A-C]b"}
 var c13Phrases = [][]string{{"abc", "select"}, {"zzz"}, {"admin", "x1"}, {"ab"}, {"union", "abc"}}
 
 func genC13Line(t *rapid.T, id int, s string) string {
-	switch rapid.IntRange(0, 9).Draw(t, "role") {
+	switch rapid.IntRange(0, 11).Draw(t, "role") {
 	case 0:
 		return fmt.Sprintf("SecRule ARGS \"@pm %s\" \"id:%d,phase:1,pass\"", s, id)
 	case 1:
@@ -52,6 +52,10 @@ func genC13Line(t *rapid.T, id int, s string) string {
 		return fmt.Sprintf("SecRule ARGS \"@rx \\xff%s\" \"id:%d,phase:1,pass\"", s, id)
 	case 7:
 		return "SecAuditLogRelevantStatus " + s
+	case 10: // the same selector text on a case-insensitive collection compiles to a different (lower-cased) expression
+		return fmt.Sprintf("SecRule %s:/%s/ \"@rx .\" \"id:%d,phase:1,pass\"", rapid.SampledFrom([]string{"REQUEST_HEADERS", "REQUEST_COOKIES", "REQUEST_HEADERS_NAMES"}).Draw(t, "civar"), s, id)
+	case 11:
+		return fmt.Sprintf("SecRule ARGS|!ARGS:/%s/ \"@rx .\" \"id:%d,phase:1,pass\"", s, id)
 	case 8:
 		return fmt.Sprintf("SecRule ARGS \"@pmFromDataset ds\" \"id:%d,phase:1,pass\"", id)
 	default:
@@ -86,10 +90,12 @@ func genC13(t *rapid.T) *C13Case {
 	// make sure there is at least one probe at the end
 	c.Ops = append(c.Ops, C13Op{Kind: "build", Conf: 0}, C13Op{Kind: "probe", Conf: 0})
 	c.Req = Req{Method: "GET", Path: rapid.SampledFrom([]string{"/p/7", "/abc", "/"}).Draw(t, "path")}
+	c.Req.Headers = []KV{{"Host", "h"}, {rapid.SampledFrom([]string{"X-Token", "Abc", "abc", "x"}).Draw(t, "hn"), "hv"}}
+	c.Req.Cookies = []KV{{rapid.SampledFrom([]string{"Abc", "X-Tok", "ab"}).Draw(t, "cn"), "cv"}}
 	vals := []string{"abc", "aaa", "select 1", "x", "ab", "123-45-6789", "404", "admin", "zzz", "union", "\xffabc", "x1", "ABC"}
 	na := rapid.IntRange(2, 6).Draw(t, "nargs")
 	for i := 0; i < na; i++ {
-		c.Req.Query = append(c.Req.Query, KV{rapid.SampledFrom([]string{"a", "abc", "x", "select", "ab"}).Draw(t, "an"), rapid.SampledFrom(vals).Draw(t, "av")})
+		c.Req.Query = append(c.Req.Query, KV{rapid.SampledFrom([]string{"a", "abc", "x", "select", "ab", "Abc", "X-Token"}).Draw(t, "an"), rapid.SampledFrom(vals).Draw(t, "av")})
 	}
 	return c
 }
@@ -218,6 +224,8 @@ func checkC13(c *C13Case) Result {
 		switch {
 		case strings.Contains(l, "@pm "):
 			return "pm"
+		case strings.Contains(l, "REQUEST_HEADERS:/") || strings.Contains(l, "REQUEST_COOKIES:/") || strings.Contains(l, "REQUEST_HEADERS_NAMES:/"):
+			return "key-rx-case-insensitive"
 		case strings.Contains(l, "ARGS:/") && strings.Contains(l, "ctl:"):
 			return "ctl-rx"
 		case strings.Contains(l, "ARGS:/"):
